@@ -10,7 +10,10 @@
       property holds (lists null-terminated, ordered sub-lists, strictly sorted, live level-0 keys = abstract set);
     - [init_levok]: the base case, every pre-filled initial state has nested levels.
 
-    NOT proved (stated in Properties_C18_Skip.v): [LevOK] at every reachable state.  The per-access preservation lemmas
+    [LevOK] at every reachable state is PROVED in Proofs/SkipListNestE.v .. SkipListNestE9.v ([skip_levels_nested]; the
+    invariant used there is a sharpened form of the sketch below: unlinking is top-down, so the ghost "levels linked now" is a
+    number, and  m_nUnlink q = linked-now + pending level_unlinked() + levels the active inserter has not linked yet).
+    History of the reduction: the per-access preservation lemmas
     of SkipListSub.v reduce it to thread-local knowledge at the link and unlink CASes.  Sketch of the invariant that
     discharges it (ghost state on top of [IS] of SkipListLin.v; none of it is formalised yet):
       ghost   alink q   = number of levels the inserter of q has linked so far (changed only by q's inserter at its pred CAS);
